@@ -254,6 +254,12 @@ def simp(t):
                 return hits[-1]
         if base[0] == "call" and base[1] == "dict" and len(base[2]) == 1 and not base[3]:
             return simp(("idx", base[2][0], i))            # dict(d)[k] == d[k]
+        if base[0] == "call" and base[1] in ("tuple", "list") and len(base[2]) == 1 and not base[3] and is_const(i) and isinstance(i[1], int) \
+                and base[2][0][0] in ("slice", "mcall", "call", "v", "res", "tup", "list"):
+            return simp(("idx", base[2][0], i))            # tuple(s)[k] == s[k]
+        if base[0] == "slice" and is_const(i) and isinstance(i[1], int) and not isinstance(i[1], bool) and i[1] >= 0 and base[2] in (C(None), C(0)) \
+                and base[4] in (C(None), C(1)) and is_const(base[3]) and isinstance(base[3][1], int) and i[1] < base[3][1]:
+            return simp(("idx", base[1], i))               # s[:n][k] == s[k] for 0 <= k < n (both fail alike when s is shorter)
         if is_const(base) and isinstance(base[1], dict) and is_const(i):
             try:
                 if i[1] in base[1]:
@@ -363,6 +369,11 @@ def simp(t):
         d = _dict_of_zip(t[2][0])
         if d is not None:
             return d
+    if h == "slice" and t[1][0] in ("tup", "list") and all(is_const(x) and (x[1] is None or (isinstance(x[1], int) and not isinstance(x[1], bool))) for x in t[2:5]) \
+            and t[4][1] != 0:
+        return (t[1][0], tuple(t[1][1][slice(t[2][1], t[3][1], t[4][1])]))      # a slice of a display with constant bounds
+    if h == "call" and t[1] == "tuple" and len(t[2]) == 1 and not t[3] and t[2][0][0] == "tup":
+        return t[2][0]
     if h == "call":
         name, args = t[1], t[2]
         if name == "abs" and len(args) == 1:
@@ -1227,6 +1238,18 @@ class SymX:
             k = (base, e.attr)
             if k in st.heap:
                 return st.heap[k]
+            if base == ("v", "self") and self.cls_name in ("Solver", "StochasticGame") and not self.ctx.cache.get("_option_consts_busy"):
+                # an option of the game / the solver outside the documented description (`initial_state=0`), at its default
+                self.ctx.cache["_option_consts_busy"] = True
+                try:
+                    from .rules import shared as _shared
+                    oc = _shared.option_field_consts(self.ctx, self.cls_name)
+                except AnalysisError:
+                    oc = {}
+                finally:
+                    self.ctx.cache["_option_consts_busy"] = False
+                if e.attr in oc:
+                    return C(oc[e.attr])
             if base == ("v", "self") and self.cls_name:
                 # class-level default (`label_type = None` in a class body), looked up along the MRO
                 for cn in self.prog.mro(self.cls_name):
@@ -1242,7 +1265,7 @@ class SymX:
                 lo = ev(e.slice.lower) if e.slice.lower else C(None)
                 hi = ev(e.slice.upper) if e.slice.upper else C(None)
                 stp = ev(e.slice.step) if e.slice.step else C(None)
-                return ("slice", base, lo, hi, stp)
+                return simp(("slice", base, lo, hi, stp))
             i = ev(e.slice)
             return self._subscript(base, i)
         if isinstance(e, ast.Tuple):
@@ -1803,11 +1826,7 @@ def classify(loop):
             continue
         out[v] = None
     # second pass: ARG and ARGSET relative to an EXT variable
-    for v, u in ups.items():
-        if out[v] is not None:
-            continue
-        acc = ("acc", loop.id, v)
-        init = loop.init.get(v, UNBOUND)
+    def _second(v, u, acc, init):
         # tie-first arg-set: ite(T, acc ++ [l], ite(C1, [l], acc))
         if u[0] == "ite" and u[3][0] == "ite" and u[3][1] in ext and u[3][3] == acc and u[3][2][0] == "list" and len(u[3][2][1]) == 1 \
                 and u[2] == simp(("cat", acc, u[3][2])):
@@ -1816,14 +1835,12 @@ def classify(loop):
             if getattr(best, "tie_first", None) == u[1]:
                 label = u[3][2][1][0]
                 if getattr(best, "band", None):
-                    out[v] = Fold("ARGSET", of=bestv, init=init, label=label, ties="band", tie_cond=u[1])
+                    return Fold("ARGSET", of=bestv, init=init, label=label, ties="band", tie_cond=u[1])
                 else:
-                    out[v] = Fold("ARGSET", of=bestv, init=init, label=label, ties=True)
-                continue
+                    return Fold("ARGSET", of=bestv, init=init, label=label, ties=True)
         if u[0] == "ite" and u[1] in ext and u[3] == acc and not mentions_acc(u[2], loop.id) \
                 and not (u[2][0] == "list" and len(u[2][1]) == 1 and init == ("list", ())):
-            out[v] = Fold("ARG", of=ext[u[1]], init=init, term=u[2])
-            continue
+            return Fold("ARG", of=ext[u[1]], init=init, term=u[2])
         if u[0] == "ite" and u[1] in ext and u[2][0] == "list" and len(u[2][1]) == 1:
             bestv = ext[u[1]]
             best = out[bestv]
@@ -1831,26 +1848,52 @@ def classify(loop):
             rest = u[3]
             eqc = simp(("cmp", "==", best.term, ("acc", loop.id, bestv)))
             if getattr(best, "band", False) and rest[0] == "ite" and rest[3] == acc and rest[2] == simp(("cat", acc, ("list", (label,)))):
-                out[v] = Fold("ARGSET", of=bestv, init=init, label=label, ties="band", tie_cond=rest[1])
-                continue
+                return Fold("ARGSET", of=bestv, init=init, label=label, ties="band", tie_cond=rest[1])
             tie = (rest[0] == "ite" and rest[1] == eqc and rest[3] == acc
                    and rest[2] == simp(("cat", acc, ("list", (label,)))))
             if tie and not mentions_acc(label, loop.id):
-                out[v] = Fold("ARGSET", of=bestv, init=init, label=label, ties=True)
-                continue
+                return Fold("ARGSET", of=bestv, init=init, label=label, ties=True)
             if rest == acc and not mentions_acc(label, loop.id):
-                out[v] = Fold("ARGSET", of=bestv, init=init, label=label, ties=False)
-                continue
+                return Fold("ARGSET", of=bestv, init=init, label=label, ties=False)
             if rest[0] == "ite" and rest[3] == acc and rest[2] == simp(("cat", acc, ("list", (label,)))) and mentions_acc(rest[1], loop.id) \
                     and mentions(rest[1], lambda x: x[0] == "call" and x[1] in ("math.isclose", "isclose", "numpy.isclose")):
                 # the tie branch compares within a tolerance while the reset branch compares exactly
-                out[v] = Fold("ARGSET", of=bestv, init=init, label=label, ties="band", tie_cond=rest[1])
-                continue
+                return Fold("ARGSET", of=bestv, init=init, label=label, ties="band", tie_cond=rest[1])
             if rest[0] == "ite" and rest[3] == acc and rest[2] == simp(("cat", acc, ("list", (label,)))) \
                     and rest[1][0] == "cmp" and rest[1][1] == "==" and mentions_acc(rest[1], loop.id):
                 # reset and tie are judged on different keys
-                out[v] = Fold("ARGSET", of=bestv, init=init, label=label, ties="inconsistent", tie_cond=rest[1])
-                continue
+                return Fold("ARGSET", of=bestv, init=init, label=label, ties="inconsistent", tie_cond=rest[1])
+        return None
+
+    for v, u in ups.items():
+        if out[v] is not None:
+            continue
+        acc = ("acc", loop.id, v)
+        init = loop.init.get(v, UNBOUND)
+        got = _second(v, u, acc, init)
+        if got is not None:
+            out[v] = got
+            continue
+        # two independent ifs (`if e > best: best = e; group = []` / `if e == best: group.append(l)`): the second test reads the
+        # optimum the first one has just updated, so the improvement test sits inside the other guard.  Split on it: where it
+        # holds, `e == e` is true (e compared greater/less than something: not a NaN)
+        if not (u[0] == "ite" and u[1] in ext):
+            for c0 in ext:
+                if c0[0] == "cmp" and mentions(u, lambda x: x[0] == "ite" and x[1] == c0):
+                    def _refl(x):
+                        if x[0] == "cmp" and x[1] == "==" and x[2] == x[3] and mentions(c0, lambda y: y == x[2]):
+                            return TRUE
+                        return None
+                    yes = deep_simp(subst(deep_simp(assume_deep(u, c0, True)), _refl))
+                    no = deep_simp(assume_deep(u, c0, False))
+                    u2 = path_simp(("ite", c0, yes, no))
+                    if u2[0] == "ite" and u2[1] == c0:
+                        got = _second(v, u2, acc, init)
+                        if got is not None:
+                            break
+        if got is not None:
+            out[v] = got
+            continue
         out[v] = Fold("OTHER", init=init, term=u)
     return out
 
